@@ -14,12 +14,13 @@ package main
 //	sess <foreign> <cfg> <tree> <k> {req}
 //	cfg  = <n>{h goos} <n>{h goarch} <n>{h goversion} <n>{h name <n>{h version} <n>{h counter} <n>{h stack}}
 //	tree = <n> {h<path relative to the upload bucket dir> <d|f> h<content>}
-//	req  = h<method> h<url path> h<body prefix> <pad byte> <pad count> h<body suffix> <size_ok>
+//	req  = h<method> h<url path> <transport> <declared Content-Length> h<body prefix> <pad byte> <pad count> h<body suffix> <size_ok>
 //	       <dec> <2xx|3xx|4xx|5xx> <outside_ok> <na|same|differs> <tree>
 //	dec  = err | ok h<week> h<lastweek> <xzero> h<%g of X> h<config> <semver ok> <n>{prog} h<json.Marshal(report)>
 //	prog = nil | p h<program> h<version> h<goversion> h<goos> h<goarch> <n>{h<counter> <value>} <n>{h<stack> <value>}
 
 import (
+	"bufio"
 	"bytes"
 	"context"
 	"encoding/json"
@@ -27,6 +28,8 @@ import (
 	"io"
 	"io/fs"
 	"math"
+	"net"
+	"net/http"
 	"net/http/httptest"
 	"os"
 	"path/filepath"
@@ -34,6 +37,7 @@ import (
 	"sort"
 	"strconv"
 	"strings"
+	"time"
 
 	"golang.org/x/exp/slog"
 	"golang.org/x/mod/semver"
@@ -495,6 +499,49 @@ func decTokens(body []byte) ([]string, *telemetry.Report) {
 	return t, &report
 }
 
+// rawRequest sends one request over a raw TCP connection (so that the framing
+// headers are exactly the given ones) and returns the status code, 0 when no
+// response could be read.  The message is always complete at the HTTP level
+// or longer than the server is willing to read; a message that ENDS before
+// its declared length is a client abort, not a request (see builder notes).
+func rawRequest(addr, method, urlPath, framing string, payload []byte) int {
+	conn, err := net.Dial("tcp", addr)
+	if err != nil {
+		return 0
+	}
+	defer conn.Close()
+	conn.SetDeadline(time.Now().Add(60 * time.Second))
+	head := method + " " + urlPath + " HTTP/1.1\r\nHost: telemetry.test\r\nContent-Type: application/json\r\n" + framing + "Connection: close\r\n\r\n"
+	go func() {
+		// the server may answer and close before it has taken the whole body
+		io.WriteString(conn, head)
+		conn.Write(payload)
+	}()
+	resp, err := http.ReadResponse(bufio.NewReader(conn), nil)
+	if err != nil {
+		fmt.Fprintln(os.Stderr, "vh_endpoint: raw request got no response:", err)
+		return 0
+	}
+	return resp.StatusCode
+}
+
+// chunked transfer coding of b in one to three chunks
+func chunked(b []byte) []byte {
+	var out bytes.Buffer
+	for len(b) > 0 {
+		n := len(b)
+		if n > 1 && vrnd.Chance(60) {
+			n = 1 + vrnd.Intn(n)
+		}
+		fmt.Fprintf(&out, "%x\r\n", n)
+		out.Write(b[:n])
+		out.WriteString("\r\n")
+		b = b[n:]
+	}
+	out.WriteString("0\r\n\r\n")
+	return out.Bytes()
+}
+
 func caseSession() {
 	base, err := os.MkdirTemp(vroot, "s")
 	if err != nil {
@@ -544,6 +591,12 @@ func caseSession() {
 	k := 1 + vrnd.Intn(4)
 	fields = append(fields, I(int64(k)))
 	outside := vsnapshot(base, uploadDir)
+	var srv *httptest.Server
+	defer func() {
+		if srv != nil {
+			srv.Close()
+		}
+	}()
 	for i := 0; i < k; i++ {
 		method := "POST"
 		if vrnd.Chance(15) {
@@ -557,10 +610,58 @@ func caseSession() {
 		raw := body.bytes()
 		// the URL path never decides anything: often a different week/X than the report's
 		urlPath := "/upload/" + Pick(vrnd, []string{"", "2000-01-01/9.json", "2024-01-01/0.5.json", "zz/1.json", "x", "2024-01-08/0.25.json"})
-		req := httptest.NewRequest(method, urlPath, bytes.NewReader(raw))
-		rec := httptest.NewRecorder()
-		handler.ServeHTTP(rec, req)
-		code := rec.Result().StatusCode
+		// How the body travels and which length the client DECLARES.  The answer must depend on the bytes
+		// of the body only (and on whether they exceed the limit), never on the declared length.
+		transport, declared := "direct", int64(len(raw))
+		var code int
+		switch tr := vrnd.Intn(100); {
+		case tr < 60: // handler called directly, honest Content-Length
+		case tr < 96: // handler called directly, http.Request.ContentLength set by hand
+			n := int64(len(raw))
+			declared = Pick(vrnd, []int64{-1, -1, 0, n - 1, n + 1, n + 1000, int64(limit), int64(limit) + 1, 10 * int64(limit), 1 << 26,
+				1 << 50, 1 << 62, math.MaxInt64, math.MaxInt64 - 1, 1 << 55})
+			if declared < -1 {
+				declared = -1
+			}
+			transport = "direct-declared"
+		default: // a raw client over a real listener
+			if srv == nil {
+				srv = httptest.NewServer(handler)
+			}
+			switch vrnd.Intn(5) {
+			case 0, 1:
+				transport = "listener-honest"
+				code = rawRequest(srv.Listener.Addr().String(), method, urlPath, fmt.Sprintf("Content-Length: %d\r\n", len(raw)), raw)
+			case 2, 3:
+				transport, declared = "listener-chunked", -1
+				code = rawRequest(srv.Listener.Addr().String(), method, urlPath, "Transfer-Encoding: chunked\r\n", chunked(raw))
+			default:
+				// an absurd declared length; the client sends one byte more than the limit (white space
+				// after the first value) and keeps the connection open: the body the server can see is over
+				// the limit whatever the declaration says
+				if len(raw) <= limit {
+					body = &vbody{prefix: raw, pad: ' ', padCount: limit + 1 - len(raw)}
+					raw = body.bytes()
+				}
+				declared = Pick(vrnd, []int64{1 << 50, 1 << 62, math.MaxInt64, 10 * int64(limit)})
+				if declared < int64(len(raw)) {
+					declared = int64(len(raw))
+				}
+				transport = "listener-declared-huge"
+				code = rawRequest(srv.Listener.Addr().String(), method, urlPath, fmt.Sprintf("Content-Length: %d\r\n", declared), raw)
+			}
+		}
+		vout.Note("transport:" + transport)
+		if strings.HasPrefix(transport, "direct") {
+			req := httptest.NewRequest(method, urlPath, bytes.NewReader(raw))
+			req.ContentLength = declared
+			rec := httptest.NewRecorder()
+			handler.ServeHTTP(rec, req)
+			code = rec.Result().StatusCode
+		}
+		if declared != int64(len(raw)) {
+			vout.Note("declared-length:differs-from-body")
+		}
 		dec, report := decTokens(raw)
 
 		tree, after := vtree(uploadDir)
@@ -583,7 +684,7 @@ func caseSession() {
 		outsideOK := reflect.DeepEqual(outside, nowOutside)
 		outside = nowOutside
 
-		fields = append(fields, HS(method), HS(urlPath), H(body.prefix), I(int64(body.pad)), I(int64(body.padCount)), H(body.suffix),
+		fields = append(fields, HS(method), HS(urlPath), transport, I(declared), H(body.prefix), I(int64(body.pad)), I(int64(body.padCount)), H(body.suffix),
 			B(len(raw) <= limit))
 		fields = append(fields, dec...)
 		fields = append(fields, fmt.Sprintf("%dxx", code/100), B(outsideOK), redecode)
